@@ -132,10 +132,52 @@ Theorem C14_circle_chord_small : forall a b e, 0 <= e <= 2 -> Rabs (chord (b - a
 Proof. exact circle_chord_small. Qed.
 Print Assumptions C14_circle_chord_small.
 
-(* non-vacuity: a concrete instance of the rational RA-range checker, and of the order checker *)
+(* input representations: float16 / float32 / integer input denotes binary64 values (promotion to the
+   float64 array the primitives compute on is the identity on values, so all statements above apply to
+   every accepted dtype / container / memory layout); the converse fails, so primitives run in the
+   precision of a narrower input cannot return the binary64 results *)
+Theorem C14_b16_in_b32 : forall x, is_b16 x -> is_b32 x.
+Proof. exact b16_in_b32. Qed.
+Print Assumptions C14_b16_in_b32.
+
+Theorem C14_b32_in_b64 : forall x, is_b32 x -> is_b64 x.
+Proof. exact b32_in_b64. Qed.
+Print Assumptions C14_b32_in_b64.
+
+Theorem C14_format_widen : forall p E M p' E' M' x,
+  (p <= p')%Z -> (0 <= E <= E')%Z -> (M <= M')%Z -> (0 <= M)%Z ->
+  in_format p E M x -> in_format p' E' M' x.
+Proof. exact in_format_widen. Qed.
+Print Assumptions C14_format_widen.
+
+Theorem C14_int_in_b64 : forall n, (Z.abs n <= 2 ^ 53)%Z -> is_b64 (inject_Z n).
+Proof. exact int_in_b64. Qed.
+Print Assumptions C14_int_in_b64.
+
+Theorem C14_narrowing_refuted : exists x, is_b64 x /\ ~ is_b32 x.
+Proof. exact narrowing_refuted. Qed.
+Print Assumptions C14_narrowing_refuted.
+
+Theorem C14_fmtb_sound : forall p E M x, (0 <= p)%Z -> fmtb p E M x = true -> in_format p E M x.
+Proof. exact fmtb_sound. Qed.
+Print Assumptions C14_fmtb_sound.
+
+Theorem C14_repr_case_sound : forall p E M src held, (0 <= p)%Z ->
+  c14_repr_case p E M src held = 0%nat ->
+  qlist_eqb held src = true /\ Forall (in_format p E M) src /\ Forall is_b64 held.
+Proof. exact c14_repr_case_sound. Qed.
+Print Assumptions C14_repr_case_sound.
+
+(* non-vacuity: concrete instances of the rational RA-range checker, of the order checker and of the
+   representation checker (float32(0.7) held exactly; held as the float64 0.7: flag 0; 2^24+1 is no float32 and 2049 no float16: flag 1) *)
 Example C14_concrete :
   c14_ra_case (6283185307179585 # 1000000000000000) (6283185307179586 # 1000000000000000) = 0%nat /\
   c14_ra_case (6283185307179587 # 1000000000000000) (6283185307179586 # 1000000000000000) = 6%nat /\
   c14_mono_case [0#1; 1#2; 1#1]%Q [0#1; 1#4; 1#4]%Q = 0%nat /\
-  c14_mono_case [0#1; 1#2; 1#1]%Q [0#1; 1#2; 1#4]%Q = 2%nat.
+  c14_mono_case [0#1; 1#2; 1#1]%Q [0#1; 1#2; 1#4]%Q = 2%nat /\
+  c14_repr_case 24 149 128 [11744051 # 16777216]%Q [11744051 # 16777216]%Q = 0%nat /\
+  c14_repr_case 24 149 128 [11744051 # 16777216]%Q [3152519739159347 # 4503599627370496]%Q = 1%nat /\
+  c14_repr_case 24 149 128 [16777217 # 1]%Q [16777217 # 1]%Q = 2%nat /\
+  c14_repr_case 11 24 16 [1 # 4096]%Q [1 # 4096]%Q = 0%nat /\
+  c14_repr_case 11 24 16 [2049 # 1]%Q [2049 # 1]%Q = 2%nat.
 Proof. vm_compute. repeat split; reflexivity. Qed.
